@@ -316,6 +316,9 @@ def call(e, current, key, ctx):
             rx = re.compile(p)
         except re.error:
             return False
+        if "." in p and "\r" in s:
+            # I-Regexp's `.` excludes CR as well as LF, Python's only LF: outside the shared dialect
+            ctx.events.add("regex.unjudged")
         return bool(rx.fullmatch(s) if fn == "match" else rx.search(s))
     raise ValueError(fn)
 
